@@ -70,10 +70,11 @@ _QVAL = re.compile(r'^(0(\.[0-9]{0,3})?|1(\.0{0,3})?)$')
 
 def parse_accept(header):
     """-> list of (type, subtype, q, has_ext_params) or None when the header is outside the
-    unambiguous grammar this model decides (quoted strings, bad q, upper case, '*' alone ...)."""
+    unambiguous grammar this model decides (quoted strings, bad q, '*' alone ...).  type/subtype keep
+    the spelling of the header (see negotiate for how letter case is judged)."""
     if header is None:
         return [('*', '*', 1.0, False)]
-    if header == '' or '"' in header or '\\' in header or header != header.lower():
+    if header == '' or '"' in header or '\\' in header:
         return None
     out = []
     for part in header.split(','):
@@ -93,7 +94,7 @@ def parse_accept(header):
             if '=' not in p:
                 return None
             name, _, val = p.partition('=')
-            name, val = name.strip(' \t'), val.strip(' \t')
+            name, val = name.strip(' \t').lower(), val.strip(' \t')     # parameter names are case-insensitive
             if not re.match('^' + _TOKEN + '$', name) or not re.match('^' + _TOKEN + '$', val):
                 return None
             if name == 'q':
@@ -107,11 +108,14 @@ def parse_accept(header):
     return out
 
 
-def _weight(cand, ranges):
-    """weight of candidate 'type/subtype' or None when the header does not decide it uniquely."""
+def _weight(cand, ranges, fold):
+    """weight of candidate 'type/subtype' or None when the header does not decide it uniquely.
+    fold: compare type/subtype case-insensitively (RFC 9110 8.3.1) or exactly as spelled."""
     ctyp, _, csub = cand.partition('/')
     best_spec, best_q = 0, set()
     for typ, sub, q, ext in ranges:
+        if fold:
+            typ, sub = typ.lower(), sub.lower()
         if typ == ctyp and sub == csub:
             spec = 3
         elif typ == ctyp and sub == '*':
@@ -144,13 +148,20 @@ def negotiate(header, candidates):
         return None
     weights = {}
     for c in candidates:
-        w = _weight(c, ranges)
+        w = _weight(c, ranges, True)
         if w is None:
+            return None
+        # Letter case: media types are case-insensitive, but whether a candidate is matched by a range
+        # that differs from it only in case is judged elsewhere (media-type matching, C09/C11).  The model
+        # answers only when both readings give every candidate the same weight, e.g. a capitalised vendor
+        # type that names no candidate either way.
+        if _weight(c, ranges, False) != w:
             return None
         weights[c] = w
     top = max(weights.values()) if weights else 0.0
     suffix = set()
     for typ, sub, q, ext in ranges:
+        sub = sub.lower()       # the documented "+json"/"+xml" fallback reads the structured suffix case-insensitively
         if sub.endswith('+json') or sub.endswith('+xml'):
             if q <= 0.0 or ext:
                 return None
